@@ -563,8 +563,144 @@ Section Terminates.
 
   Lemma gen_terminates mid tp : gen vr o sch ann mid tp <> OutOfFuel.
   Proof.
-    unfold gen. pose proof (set_fields_nf top_fuel 0 INoField mid (fresh sch mid) tp) as H.
-    destruct (set_fields vr o sch ann top_fuel 0 INoField mid (fresh sch mid) tp) as [[[v|] t]| | |]; try discriminate.
+    unfold gen. set (tp' := if v_root_draw vr then snd (draw_bool tp) else tp).
+    pose proof (set_fields_nf top_fuel 0 INoField mid (fresh sch mid) tp') as H.
+    destruct (set_fields vr o sch ann top_fuel 0 INoField mid (fresh sch mid) tp') as [[[v|] t]| | |]; try discriminate.
     intros _. apply H; unfold top_fuel; try lia. reflexivity.
   Qed.
 End Terminates.
+
+(* ---- what the code got wrong before its `fix:` commits ([current]): witnesses, each produced by the
+   generator model of that code; kept as regression cases ------------------------------------------ *)
+Definition o_plain : gopts :=
+  {| o_no_empty := false; o_disallow_nil := false; o_any := []; o_hints := []; o_fmap := fun _ _ => FmNone |}.
+Definition fa_plain : fannot := {| a_enum := []; a_iface := None |}.
+Definition md_of (fs : list field) : msgdesc := {| m_fields := fs; m_oneofs := 0; m_impl := ProtobufGo |}.
+Definition md_any : msgdesc := md_of [fld 1 (TScalar KString) Singular; fld 2 (TScalar KBytes) Singular].
+Definition ma_any : mannot := {| a_name := [x41]; a_wkt := WAny; a_fields := [fa_plain; fa_plain] |}.
+
+(* google.protobuf.FieldMask on its own *)
+Definition sch_fm : schema := [ md_of [fld 1 (TScalar KString) (Rep false)] ].
+Definition ann_fm : annots := [ {| a_name := [x46]; a_wkt := WFieldMask; a_fields := [fa_plain] |} ].
+Lemma gen_fieldmask_paths_refuted_before_fix :
+  exists o sch ann mid tape m, ann_ok sch ann = true /\ gen current o sch ann mid tape = Ok m /\
+    rapid_in_range current o sch ann mid m = true /\ deep sch ann fieldmask_preds top_fuel 1 INoField mid m = false.
+Proof. exists o_plain, sch_fm, ann_fm, 0%nat, [3; 1; 2], (VMsg [VNil] []). vm_compute. repeat split; reflexivity. Qed.
+
+(* message M { E e = 1; }  enum E { A = 4; B = 5; C = 6; }  (test3.ForeignEnum) *)
+Definition sch_en : schema := [ md_of [fld 1 (TScalar KEnum) Singular] ].
+Definition ann_en : annots := [ {| a_name := [x4d]; a_wkt := WNone; a_fields := [ {| a_enum := [4; 5; 6]%Z; a_iface := None |} ] |} ].
+Lemma gen_enum_declared_refuted_before_fix :
+  exists o sch ann mid tape m, ann_ok sch ann = true /\ gen current o sch ann mid tape = Ok m /\
+    rapid_in_range current o sch ann mid m = true /\ deep sch ann enum_preds top_fuel 1 INoField mid m = false.
+Proof. exists o_plain, sch_en, ann_en, 0%nat, [0; 0], (VMsg [VInt 0] []). vm_compute. repeat split; reflexivity. Qed.
+
+(* message M { repeated google.protobuf.Any as = 1; } with empty AnyTypeURLs: an Any without type URL *)
+Definition sch_anyl : schema := [ md_of [fld 1 (TMsg 1) (Rep false)]; md_any ].
+Definition ann_anyl : annots := [ {| a_name := [x4d]; a_wkt := WNone; a_fields := [fa_plain] |}; ma_any ].
+Definition no_url_preds : preds :=          (* every Any names a type *)
+  {| p_scalar := true_scalar; p_slot := true_slot;
+     p_msg := fun _ _ ma _ slots _ =>
+       match a_wkt ma with WAny => match slots with VBytes (_ :: _) :: _ => true | _ => false end | _ => true end |}.
+Lemma gen_any_resolvable_refuted_before_fix :
+  exists o sch ann mid tape m, ann_ok sch ann = true /\ gen current o sch ann mid tape = Ok m /\
+    rapid_in_range current o sch ann mid m = true /\ deep sch ann no_url_preds top_fuel 1 INoField mid m = false.
+Proof.
+  exists o_plain, sch_anyl, ann_anyl, 0%nat, [1; 1], (VMsg [VList [VMsg [VBytes []; VNil] []]] []).
+  vm_compute. repeat split; reflexivity.
+Qed.
+
+(* genAny dereferences the nil field it is handed by MessageGenerator: Any as the root type panics *)
+Lemma set_fields_any_root_panicked fu o sch ann mid md ma cur tp :
+  get_msg sch mid = Some md -> nth_error ann mid = Some ma -> a_wkt ma = WAny -> o_any o <> [] ->
+  set_fields current o sch ann (S fu) 0 INoField mid cur tp = Panic.
+Proof.
+  intros Hg Ha Hw Hu. cbn [set_fields]. cbn [Nat.ltb Nat.leb depth_limit].
+  rewrite Hg, Ha, Hw. unfold gen_any. destruct (o_any o); [congruence|]. reflexivity.
+Qed.
+Lemma gen_any_root_panicked_before_fix o sch ann mid md ma tp :
+  get_msg sch mid = Some md -> nth_error ann mid = Some ma -> a_wkt ma = WAny -> o_any o <> [] ->
+  gen current o sch ann mid tp = Panic.
+Proof.
+  intros Hg Ha Hw Hu. unfold gen. cbn [v_root_draw current]. unfold top_fuel.
+  rewrite (set_fields_any_root_panicked 11 o sch ann mid md ma _ tp Hg Ha Hw Hu). reflexivity.
+Qed.
+
+(* list.Truncate(i) with the loop index: when every element fails (nesting limit), n draws leave n-1
+   unpopulated elements behind *)
+Lemma list_loop_leftover_before_fix sch (child : child_t) depth fa tm :
+  (forall d ic t cur tp, child d ic t cur tp = Ok (None, tp)) ->
+  forall n tp, list_loop current sch child depth fa tm (S n) 0 [] tp = Ok (repeat (fresh sch tm) n, tp).
+Proof.
+  intros Hc.
+  assert (G : forall k i tp, list_loop current sch child depth fa tm k (S i) (repeat (fresh sch tm) i) tp
+                             = Ok (repeat (fresh sch tm) (k + i), tp)).
+  { induction k as [|k IH]; intros i tp; cbn [list_loop]; [reflexivity|].
+    rewrite Hc. cbn [v_list_truncate current].
+    replace (firstn (S i) (repeat (fresh sch tm) i ++ [fresh sch tm])) with (repeat (fresh sch tm) (S i)).
+    - rewrite IH. f_equal. f_equal. f_equal. lia.
+    - replace (repeat (fresh sch tm) i ++ [fresh sch tm]) with (repeat (fresh sch tm) (S i)).
+      + symmetry. apply firstn_all2. rewrite repeat_length. lia.
+      + clear. induction i; cbn; [reflexivity|]. f_equal. exact IHi. }
+  intros n tp. cbn [list_loop]. rewrite Hc. cbn [v_list_truncate current firstn].
+  pose proof (G n 0%nat tp) as G0. cbn [repeat] in G0. rewrite G0. f_equal. f_equal. f_equal. lia.
+Qed.
+
+(* ---- rapid.String(): a sequence of Unicode scalar values is valid UTF-8 --------------------------- *)
+Lemma b2n_n2b x : x < 256 -> b2n (n2b x) = x.
+Proof.
+  intros H. unfold b2n, n2b. rewrite N.mod_small by exact H.
+  destruct (Byte.of_N x) eqn:E.
+  - apply Byte.to_of_N. exact E.
+  - apply Byte.of_N_None_iff in E. lia.
+Qed.
+
+(* ---- empty AnyTypeURLs: no Any below the root (setFields returns genAny's result; failed elements
+   are removed) ---------------------------------------------------------------------------------- *)
+Lemma gen_any_absent vr o sch ann : v_any_container vr = true -> v_list_truncate vr = true -> o_any o = [] ->
+  forall mid m, rapid_in_range vr o sch ann mid m = true -> deep sch ann (no_any_field_preds ann) top_fuel 1 INoField mid m = true.
+Proof.
+  intros Hc Ht Hu. apply from_range; [triv_preds| |triv_preds].
+  intros r p f fa s. unfold rg_slot. cbn [p_slot no_any_field_preds].
+  destruct (f_ty f) as [k|tm]; [reflexivity|]. destruct (is_any ann tm) eqn:Ea; [|reflexivity].
+  unfold child_ok_singular, child_ok_container, has_urls. rewrite Ea, Hu, Hc, Ht. cbn [is_nilb negb orb].
+  rewrite andb_false_r.
+  destruct (f_shape f).
+  - destruct s; try discriminate; reflexivity.
+  - destruct s; cbn [rep_len]; try discriminate; [reflexivity|]. destruct l; [reflexivity|discriminate].
+  - destruct s; try discriminate; [reflexivity|]. destruct s; discriminate.
+  - destruct s; cbn [map_kvs]; try discriminate; [reflexivity|]. destruct kvs; [reflexivity|].
+    intros H. splitb. discriminate.
+Qed.
+
+
+(* ---- regression: on the witnesses of the old defects the repaired code does the right thing -------- *)
+Definition fm_regr : val := VMsg [VList [VBytes [x63; x61]; VBytes [x61]; VBytes [x61]; VBytes [x61]]] [].
+Lemma regression_fieldmask :
+  rapid_in_range repaired o_plain sch_fm ann_fm 0 (VMsg [VNil] []) = false /\
+  gen repaired o_plain sch_fm ann_fm 0 [1; 3; 1; 2] = Ok fm_regr /\
+  rapid_in_range repaired o_plain sch_fm ann_fm 0 fm_regr = true /\
+  deep sch_fm ann_fm fieldmask_preds top_fuel 1 INoField 0 fm_regr = true.
+Proof. vm_compute. repeat split; reflexivity. Qed.
+
+Lemma regression_enum :
+  rapid_in_range repaired o_plain sch_en ann_en 0 (VMsg [VInt 0] []) = false /\
+  gen repaired o_plain sch_en ann_en 0 [1; 0; 0] = Ok (VMsg [VInt 4] []) /\
+  rapid_in_range repaired o_plain sch_en ann_en 0 (VMsg [VInt 4] []) = true.
+Proof. vm_compute. repeat split; reflexivity. Qed.
+
+Lemma regression_any_container :
+  rapid_in_range repaired o_plain sch_anyl ann_anyl 0 (VMsg [VList [VMsg [VBytes []; VNil] []]] []) = false /\
+  gen repaired o_plain sch_anyl ann_anyl 0 [1; 1; 1] = Ok (VMsg [VList []] []).
+Proof. vm_compute. split; reflexivity. Qed.
+
+(* Any as the root type with AnyTypeURLs: a value, not a panic (payload: M holding one more Any of M) *)
+Definition o_any1 : gopts :=
+  {| o_no_empty := false; o_disallow_nil := false; o_any := [0%nat]; o_hints := []; o_fmap := fun _ _ => FmNone |}.
+Definition any_regr : val :=
+  VMsg [VBytes [x2f; x4d]; VBytes [x0a; x04; x0a; x02; x2f; x4d; x0a; x04; x0a; x02; x2f; x4d]] [].
+Lemma regression_any_root :
+  gen repaired o_any1 sch_anyl ann_anyl 1 [1; 0; 1; 2] = Ok any_regr /\
+  rapid_in_range repaired o_any1 sch_anyl ann_anyl 1 any_regr = true /\
+  deep sch_anyl ann_anyl (any_preds o_any1 sch_anyl ann_anyl) top_fuel 1 INoField 1 any_regr = true.
+Proof. vm_compute. repeat split; reflexivity. Qed.
